@@ -113,7 +113,22 @@ fn gen_hist(rng: &mut Rng) -> Hist {
                 c.form = CsidForm::Min;
                 c
             };
-            group.push(enc.encode(&m, &c));
+            let mut chunks = enc.encode(&m, &c);
+            // a sender may repeat the full header on continuation chunks instead of using type 3
+            // (the library's own serializer does so for forced-uncompressed messages)
+            if c.fmt == 0 && chunks.len() > 1 && rng.chance(1, 5) {
+                let first_payload = m.data.len().min(cs);
+                let hdr: Vec<u8> = chunks[0][..chunks[0].len() - first_payload].to_vec();
+                let bh = if csid <= 63 { 1 } else if csid <= 319 { 2 } else { 3 };
+                let ext = if m.ts >= 0xFFFFFF { 4 } else { 0 };
+                for ch in chunks.iter_mut().skip(1) {
+                    let payload = ch[bh + ext..].to_vec();
+                    let mut n = hdr.clone();
+                    n.extend_from_slice(&payload);
+                    *ch = n;
+                }
+            }
+            group.push(chunks);
             msgs.push(m);
             csids_all.push(csid);
         }
@@ -248,6 +263,7 @@ fn gen_hist_scs(rng: &mut Rng) -> Hist {
             if field >= 0xFFFFFF {
                 cont.extend_from_slice(&field.to_be_bytes());
             }
+            let cont = if c.fmt == 0 && rng.chance(1, 5) { hdr.clone() } else { cont };
             flights.push(Flight { idx, hdr, cont, data: m.data.clone(), pos: 0, started: false });
             msgs.push(m);
             csids_all.push(csid);
@@ -466,7 +482,7 @@ impl Check for C16 {
         run_hist(h, rng, out);
     }
     fn rule(&self) -> String {
-        "1-3 rounds of 2-6 messages (1-9 chunks each, chunk sizes {1,2,5,16,128,200}) on distinct chunk stream ids of all three csid forms, encoded by the independent encoder and interleaved by a scheduler that keeps each message's chunks in order: no-overlap, audio-inside-video, round-robin, pairwise, random. Case 0: three 9 MiB messages in flight at once at chunk size 1 MiB, round-robin (more unfinished data than one maximum-size message). A quarter of the histories instead interleave 1-4 messages (0-3000 bytes) per round with up to five in-band SetChunkSize messages on chunk stream 2 placed between chunks of the messages in flight (new sizes {1, 2, 5, 16, 100, 128, 200, 300, 1000, 4096, 65536, 2^31-1}: below, at and above the lengths in flight); every later chunk, also of messages already begun, is cut at the new size, and the deserializer is told the new size when the SetChunkSize message is delivered, as the sessions do. One message in twelve is an Abort (type 2) naming a chunk stream id of its group - to the deserializer a message like any other, since the sender goes on with the message it names. Payload bytes are tagged with their message index. Expected deliveries (each message when its last chunk arrives) come from independent per-csid reassembly. The stream is fed in two phases around the first overlap point (first chunk arriving on a csid while another csid has a partial message), each in 3 partitions. distinct = (messages, schedule, first-overlap offset bucket, chunk count).".to_string()
+        "1-3 rounds of 2-6 messages (1-9 chunks each, chunk sizes {1,2,5,16,128,200}) on distinct chunk stream ids of all three csid forms, encoded by the independent encoder and interleaved by a scheduler that keeps each message's chunks in order: no-overlap, audio-inside-video, round-robin, pairwise, random. Case 0: three 9 MiB messages in flight at once at chunk size 1 MiB, round-robin (more unfinished data than one maximum-size message). A quarter of the histories instead interleave 1-4 messages (0-3000 bytes) per round with up to five in-band SetChunkSize messages on chunk stream 2 placed between chunks of the messages in flight (new sizes {1, 2, 5, 16, 100, 128, 200, 300, 1000, 4096, 65536, 2^31-1}: below, at and above the lengths in flight); every later chunk, also of messages already begun, is cut at the new size, and the deserializer is told the new size when the SetChunkSize message is delivered, as the sessions do. In a fifth of the multi-chunk messages that start with a type-0 header the continuation chunks repeat that full header instead of using type 3. One message in twelve is an Abort (type 2) naming a chunk stream id of its group - to the deserializer a message like any other, since the sender goes on with the message it names. Payload bytes are tagged with their message index. Expected deliveries (each message when its last chunk arrives) come from independent per-csid reassembly. The stream is fed in two phases around the first overlap point (first chunk arriving on a csid while another csid has a partial message), each in 3 partitions. distinct = (messages, schedule, first-overlap offset bucket, chunk count).".to_string()
     }
     fn assumptions(&self) -> Vec<String> {
         vec![
